@@ -2,8 +2,8 @@ import CollectionsC.Proofs.Chain
 import CollectionsC.Spec.LSeq
 import CollectionsC.Model.LinkedList
 /-! Characterisation of every `cc_list.c` model function on canonical states: started in the state
-`ofList xs` (bookkeeping right, content `xs`), the function returns exactly the status/out-value of
-the ideal list `Spec.LSeq`, ends in the state `ofList (spec content)`, and its ledger is the original
+`ofList t xs` (bookkeeping right, content `xs`), the function returns exactly the status/out-value of
+the ideal list `Spec.LSeq`, ends in the state `ofList t (spec content)`, and its ledger is the original
 one plus the stated `alloc`/`free` events — no `check` fails.  `Inv`-preservation, refinement,
 fault-freedom, inertness and ledger theorems are corollaries (`Properties/C04.lean`). -/
 namespace CC.DList
@@ -21,11 +21,11 @@ macro "ptr_arith2" : tactic => `(tactic| (
   repeat' (first | omega | (apply And.intro) | (simp (disch := omega) only [if_pos, if_neg]) | split | (simp [*]; done) | simp)))
 
 theorem new_eq (m : Mem) :
-    new m = if m.alloc.1 then (.ok, some (ofList []), m.alloc.2) else (.errAlloc, none, m.alloc.2) := by
-  unfold new; cases h : m.alloc.1 <;> simp [h, ofList_nil]
+    new t m = if (m.allocT t).1 then (.ok, some (ofList t []), (m.allocT t).2) else (.errAlloc, none, (m.allocT t).2) := by
+  unfold new; by_cases h : (m.allocT t).1 = true <;> simp [h, ofList_nil]
 
 theorem getNodeAt_ofList (xs : List Nat) (i : Nat) :
-    getNodeAt (ofList xs) i = if i < xs.length then (.ok, some i) else (.errOutOfRange, none) := by
+    getNodeAt (ofList t xs) i = if i < xs.length then (.ok, some i) else (.errOutOfRange, none) := by
   unfold getNodeAt
   by_cases h : i < xs.length
   · have h0 : xs.length ≠ 0 := by omega
@@ -38,35 +38,40 @@ theorem getNodeAt_ofList (xs : List Nat) (i : Nat) :
   · simp [h, Nat.le_of_not_lt h]
 
 theorem addFirst_ofList (xs : List Nat) (x : Nat) (m : Mem) :
-    addFirst (ofList xs) x m =
-      if m.alloc.1 then (.ok, ofList (LSeq.addFirst xs x), m.alloc.2) else (.errAlloc, ofList xs, m.alloc.2) := by
+    addFirst (ofList t xs) x m =
+      if (m.allocT t).1 then (.ok, ofList t (LSeq.addFirst xs x), (m.allocT t).2) else (.errAlloc, ofList t xs, (m.allocT t).2) := by
   unfold addFirst LSeq.addFirst
-  cases h : m.alloc.1 <;> simp [h]
+  simp only [ofList_triple]
+  by_cases h : (m.allocT t).1 = true <;> simp [h]
   cases xs with
   | nil => simp [ofList]
   | cons y ys => simp [ofList, Chain.ins, Ptr.valid, Ptr.pos, Ptr.shiftIns]
 
 theorem addLast_ofList (xs : List Nat) (x : Nat) (m : Mem) :
-    addLast (ofList xs) x m =
-      if m.alloc.1 then (.ok, ofList (LSeq.addLast xs x), m.alloc.2) else (.errAlloc, ofList xs, m.alloc.2) := by
+    addLast (ofList t xs) x m =
+      if (m.allocT t).1 then (.ok, ofList t (LSeq.addLast xs x), (m.allocT t).2) else (.errAlloc, ofList t xs, (m.allocT t).2) := by
   unfold addLast LSeq.addLast
-  cases h : m.alloc.1 <;> simp [h]
+  simp only [ofList_triple]
+  by_cases h : (m.allocT t).1 = true <;> simp [h]
   cases xs with
   | nil => simp [ofList]
   | cons y ys => simp [ofList, Chain.ins, Ptr.valid, Ptr.pos, Ptr.shiftIns]
 
 theorem addAt_ofList (xs : List Nat) (x i : Nat) (m : Mem) :
-    addAt (ofList xs) x i m =
+    addAt (ofList t xs) x i m =
       if (LSeq.addAt xs x i).1 = .ok then
-        (if m.alloc.1 then (.ok, ofList (LSeq.addAt xs x i).2, m.alloc.2) else (.errAlloc, ofList xs, m.alloc.2))
-      else ((LSeq.addAt xs x i).1, ofList xs, m) := by
+        (if (m.allocT t).1 then (.ok, ofList t (LSeq.addAt xs x i).2, (m.allocT t).2) else (.errAlloc, ofList t xs, (m.allocT t).2))
+      else ((LSeq.addAt xs x i).1, ofList t xs, m) := by
   unfold addAt LSeq.addAt
   rw [getNodeAt_ofList]
   by_cases h : i < xs.length
   · simp only [h, if_true]
-    cases ha : m.alloc.1
-    · simp
-    · have h0 : xs.length ≠ 0 := by omega
+    simp only [ofList_triple]
+    by_cases ha : (m.allocT t).1 = true
+    case neg => simp [ha]
+    case pos =>
+      simp only [ha, if_true]
+      have h0 : xs.length ≠ 0 := by omega
       have h4 : i ≤ xs.length - 1 := by omega
       simp [Ptr.valid, h, Ptr.pos, ofList, Chain.ins, Ptr.shiftIns, h0, List.length_insertIdx, Nat.le_of_lt h]
       by_cases hi : i = 0 <;> simp [hi, h4] <;> omega
@@ -74,7 +79,7 @@ theorem addAt_ofList (xs : List Nat) (x i : Nat) (m : Mem) :
 
 /-- unlinking the `i`-th node -/
 theorem unlinkn_ofList (xs : List Nat) (i : Nat) (m : Mem) (h : i < xs.length) :
-    unlinkn (ofList xs) (some i) m = (xs.getD i 0, ofList (xs.eraseIdx i), m.free) := by
+    unlinkn (ofList t xs) (some i) m = (xs.getD i 0, ofList t (xs.eraseIdx i), (m.freeT t)) := by
   have h0 : xs.length ≠ 0 := by omega
   unfold unlinkn
   simp only [Ptr.valid, ofList_nodes, h, decide_true, Mem.check_true, data_some, Ptr.prev, Ptr.next, Ptr.pos, Option.getD_some]
@@ -83,7 +88,7 @@ theorem unlinkn_ofList (xs : List Nat) (i : Nat) (m : Mem) (h : i < xs.length) :
     ptr_arith
 
 theorem find_head_ofList (xs : List Nat) (f : Nat → Bool) :
-    (ofList xs).find (ofList xs).head f = (xs.findIdx? f) := by
+    (ofList t xs).find (ofList t xs).head f = (xs.findIdx? f) := by
   cases xs with
   | nil => simp [ofList, Chain.find]
   | cons y ys =>
@@ -109,9 +114,9 @@ theorem findIdx?_none_of_not_mem (xs : List Nat) (x : Nat) (h : x ∉ xs) : xs.f
   intro y hy; simp; intro e; subst e; exact h hy
 
 theorem remove_ofList (xs : List Nat) (x : Nat) (m : Mem) :
-    remove (ofList xs) x m =
-      ((LSeq.remove xs x).1, (LSeq.remove xs x).2.1, ofList (LSeq.remove xs x).2.2,
-       if (LSeq.remove xs x).1 = .ok then m.free else m) := by
+    remove (ofList t xs) x m =
+      ((LSeq.remove xs x).1, (LSeq.remove xs x).2.1, ofList t (LSeq.remove xs x).2.2,
+       if (LSeq.remove xs x).1 = .ok then (m.freeT t) else m) := by
   unfold remove getNode LSeq.remove
   rw [find_head_ofList]
   by_cases h : x ∈ xs
@@ -123,9 +128,9 @@ theorem remove_ofList (xs : List Nat) (x : Nat) (m : Mem) :
   · simp [findIdx?_none_of_not_mem xs x h, h]
 
 theorem removeAt_ofList (xs : List Nat) (i : Nat) (m : Mem) :
-    removeAt (ofList xs) i m =
-      ((LSeq.removeAt xs i).1, (LSeq.removeAt xs i).2.1, ofList (LSeq.removeAt xs i).2.2,
-       if (LSeq.removeAt xs i).1 = .ok then m.free else m) := by
+    removeAt (ofList t xs) i m =
+      ((LSeq.removeAt xs i).1, (LSeq.removeAt xs i).2.1, ofList t (LSeq.removeAt xs i).2.2,
+       if (LSeq.removeAt xs i).1 = .ok then (m.freeT t) else m) := by
   unfold removeAt LSeq.removeAt
   rw [getNodeAt_ofList]
   by_cases h : i < xs.length
@@ -134,9 +139,9 @@ theorem removeAt_ofList (xs : List Nat) (i : Nat) (m : Mem) :
   · simp [h]
 
 theorem removeFirst_ofList (xs : List Nat) (m : Mem) :
-    removeFirst (ofList xs) m =
-      ((LSeq.removeFirst xs).1, (LSeq.removeFirst xs).2.1, ofList (LSeq.removeFirst xs).2.2,
-       if (LSeq.removeFirst xs).1 = .ok then m.free else m) := by
+    removeFirst (ofList t xs) m =
+      ((LSeq.removeFirst xs).1, (LSeq.removeFirst xs).2.1, ofList t (LSeq.removeFirst xs).2.2,
+       if (LSeq.removeFirst xs).1 = .ok then (m.freeT t) else m) := by
   unfold removeFirst
   cases xs with
   | nil => simp [LSeq.removeFirst]
@@ -145,9 +150,9 @@ theorem removeFirst_ofList (xs : List Nat) (m : Mem) :
     rw [unlinkn_ofList _ _ _ (by simp)]; simp [LSeq.removeFirst]
 
 theorem removeLast_ofList (xs : List Nat) (m : Mem) :
-    removeLast (ofList xs) m =
-      ((LSeq.removeLast xs).1, (LSeq.removeLast xs).2.1, ofList (LSeq.removeLast xs).2.2,
-       if (LSeq.removeLast xs).1 = .ok then m.free else m) := by
+    removeLast (ofList t xs) m =
+      ((LSeq.removeLast xs).1, (LSeq.removeLast xs).2.1, ofList t (LSeq.removeLast xs).2.2,
+       if (LSeq.removeLast xs).1 = .ok then (m.freeT t) else m) := by
   unfold removeLast
   cases xs with
   | nil => simp [LSeq.removeLast]
@@ -161,22 +166,22 @@ theorem removeLast_ofList (xs : List Nat) (m : Mem) :
     simp
 
 theorem unlinkAllLoop_ofList : ∀ (xs : List Nat) (k : Nat) (cb : List Nat) (m : Mem), xs.length ≤ k →
-    unlinkAllLoop k (ofList xs) (ofList xs).head cb m = (ofList [], cb ++ xs, Mem.freeN xs.length m)
+    unlinkAllLoop k (ofList t xs) (ofList t xs).head cb m = (ofList t [], cb ++ xs, Mem.freeN t xs.length m)
   | [], k, cb, m, _ => by cases k <;> simp [unlinkAllLoop, ofList, Mem.freeN]
   | y :: ys, 0, cb, m, h => by simp at h
   | y :: ys, k + 1, cb, m, h => by
     rw [ofList_head_cons]
     simp only [unlinkAllLoop]
     rw [unlinkn_ofList _ _ _ (by simp)]
-    have hn : (Ptr.next (ofList (y :: ys)).nodes.length (some 0)).shiftDel 0 = (ofList ys).head := by
+    have hn : (Ptr.next (ofList t (y :: ys)).nodes.length (some 0)).shiftDel 0 = (ofList t ys).head := by
       cases ys <;> simp [Ptr.next, Ptr.shiftDel, ofList]
     simp only [hn, List.eraseIdx_zero, List.tail_cons, data_some]
     rw [unlinkAllLoop_ofList ys k _ _ (by simpa using h)]
     simp [Mem.freeN]
 
 theorem removeAll_ofList (xs : List Nat) (m : Mem) :
-    removeAll (ofList xs) m =
-      ((LSeq.removeAll xs).1, (LSeq.removeAll xs).2.1, ofList (LSeq.removeAll xs).2.2, Mem.freeN xs.length m) := by
+    removeAll (ofList t xs) m =
+      ((LSeq.removeAll xs).1, (LSeq.removeAll xs).2.1, ofList t (LSeq.removeAll xs).2.2, Mem.freeN t xs.length m) := by
   unfold removeAll unlinknAll LSeq.removeAll
   cases xs with
   | nil => simp [Mem.freeN]
@@ -186,7 +191,7 @@ theorem removeAll_ofList (xs : List Nat) (m : Mem) :
     simp [ofList]
 
 theorem destroy_ofList (xs : List Nat) (m : Mem) :
-    destroy (ofList xs) m = Mem.freeN (xs.length + 1) m := by
+    destroy (ofList t xs) m = Mem.freeN t (xs.length + 1) m := by
   unfold destroy
   cases xs with
   | nil => simp [Mem.freeN]
@@ -195,14 +200,14 @@ theorem destroy_ofList (xs : List Nat) (m : Mem) :
     simp [Mem.freeN, Mem.freeN_free]
 
 theorem destroyCb_ofList (xs : List Nat) (m : Mem) :
-    destroyCb (ofList xs) m = (xs, Mem.freeN (xs.length + 1) m) := by
+    destroyCb (ofList t xs) m = (xs, Mem.freeN t (xs.length + 1) m) := by
   unfold destroyCb
   rw [removeAll_ofList]
   cases xs <;> simp [LSeq.removeAll, Mem.freeN, Mem.freeN_free]
 
 theorem replaceAt_ofList (xs : List Nat) (x i : Nat) (m : Mem) :
-    replaceAt (ofList xs) x i m =
-      ((LSeq.replaceAt xs x i).1, (LSeq.replaceAt xs x i).2.1, ofList (LSeq.replaceAt xs x i).2.2, m) := by
+    replaceAt (ofList t xs) x i m =
+      ((LSeq.replaceAt xs x i).1, (LSeq.replaceAt xs x i).2.1, ofList t (LSeq.replaceAt xs x i).2.2, m) := by
   unfold replaceAt LSeq.replaceAt
   rw [getNodeAt_ofList]
   by_cases h : i < xs.length
@@ -211,12 +216,12 @@ theorem replaceAt_ofList (xs : List Nat) (x i : Nat) (m : Mem) :
   · simp [h]
 
 theorem getFirst_ofList (xs : List Nat) (m : Mem) :
-    getFirst (ofList xs) m = ((LSeq.getFirst xs).1, (LSeq.getFirst xs).2, m) := by
+    getFirst (ofList t xs) m = ((LSeq.getFirst xs).1, (LSeq.getFirst xs).2, m) := by
   unfold getFirst
   cases xs <;> simp [LSeq.getFirst, ofList, Ptr.valid, data_some]
 
 theorem getLast_ofList (xs : List Nat) (m : Mem) :
-    getLast (ofList xs) m = ((LSeq.getLast xs).1, (LSeq.getLast xs).2, m) := by
+    getLast (ofList t xs) m = ((LSeq.getLast xs).1, (LSeq.getLast xs).2, m) := by
   unfold getLast
   cases xs with
   | nil => simp [LSeq.getLast]
@@ -227,18 +232,18 @@ theorem getLast_ofList (xs : List Nat) (m : Mem) :
     rw [← h1]; simp
 
 theorem getAt_ofList (xs : List Nat) (i : Nat) (m : Mem) :
-    getAt (ofList xs) i m = ((LSeq.getAt xs i).1, (LSeq.getAt xs i).2, m) := by
+    getAt (ofList t xs) i m = ((LSeq.getAt xs i).1, (LSeq.getAt xs i).2, m) := by
   unfold getAt LSeq.getAt
   rw [getNodeAt_ofList]
   by_cases h : i < xs.length <;> simp [h, Ptr.valid, data_some]
 
-theorem contains_ofList (xs : List Nat) (x : Nat) : contains (ofList xs) x = LSeq.contains xs x := by
+theorem contains_ofList (xs : List Nat) (x : Nat) : contains (ofList t xs) x = LSeq.contains xs x := by
   simp [contains, LSeq.contains]
 theorem containsValue_ofList (cmp : Nat → Nat → Int) (xs : List Nat) (x : Nat) :
-    containsValue cmp (ofList xs) x = LSeq.containsValue cmp xs x := by
+    containsValue cmp (ofList t xs) x = LSeq.containsValue cmp xs x := by
   simp [containsValue, LSeq.containsValue]
 theorem indexOf_ofList (cmp : Nat → Nat → Int) (xs : List Nat) (x : Nat) :
-    indexOf cmp (ofList xs) x = LSeq.indexOf cmp xs x := by
+    indexOf cmp (ofList t xs) x = LSeq.indexOf cmp xs x := by
   simp only [indexOf, LSeq.indexOf, forward_ofList]
   cases xs.findIdx? fun y => cmp y x == 0 <;> rfl
-theorem foreach_ofList (xs : List Nat) : foreach (ofList xs) = xs := by simp [foreach]
+theorem foreach_ofList (xs : List Nat) : foreach (ofList t xs) = xs := by simp [foreach]
